@@ -16,6 +16,12 @@ var AllSuites = []Suite{{1, 1}, {1, 2}, {1, 3}}
 // BuildConfig encodes an ECHConfig (draft-ietf-tls-esni section 4) for
 // DHKEM(X25519, HKDF-SHA256).
 func BuildConfig(id byte, pub []byte, publicName string, suites []Suite, maxNameLen byte) []byte {
+	return BuildConfigExt(id, pub, publicName, suites, maxNameLen, nil)
+}
+
+// BuildConfigExt is BuildConfig with an explicit extensions block (the
+// concatenated extensions, without the outer length).
+func BuildConfigExt(id byte, pub []byte, publicName string, suites []Suite, maxNameLen byte, exts []byte) []byte {
 	var c []byte
 	c = append(c, id)
 	c = binary.BigEndian.AppendUint16(c, 0x0020)
@@ -29,7 +35,8 @@ func BuildConfig(id byte, pub []byte, publicName string, suites []Suite, maxName
 	c = append(c, maxNameLen)
 	c = append(c, byte(len(publicName)))
 	c = append(c, publicName...)
-	c = append(c, 0, 0) // extensions
+	c = binary.BigEndian.AppendUint16(c, uint16(len(exts)))
+	c = append(c, exts...)
 	out := []byte{0xfe, 0x0d}
 	out = binary.BigEndian.AppendUint16(out, uint16(len(c)))
 	return append(out, c...)
